@@ -306,7 +306,14 @@ class Sym:
             return Sym(r if p > 0 else 1 / r)
         if isinstance(p, (float, _np.floating)) and float(p) == 0.5:
             return sym_sqrt(self)
-        return Sym(POW(self.e, toz(p)))
+        r = POW(self.e, toz(p))
+        if CTX is not None:
+            k = ('pow', r.get_id())
+            if k not in CTX._sqrts:
+                CTX._sqrts[k] = (r, r)
+                # real power of a positive base is positive; monotone in the base for p > 0
+                CTX.side.append(z3.Implies(self.e > 0, r > 0))
+        return Sym(r)
 
     def __rpow__(self, b):
         return Sym(POW(toz(b), self.e))
@@ -397,7 +404,9 @@ def sym_sqrt(x):
         c.side.append(s * s == x.e)
         c.strong.add(len(c.side) - 1)
         if SQRT_MONO_LEMMAS:
-            for (xe, se) in c._sqrts.values():
+            for kk, (xe, se) in list(c._sqrts.items()):
+                if isinstance(kk, tuple):
+                    continue
                 c.side.append(z3.And((xe <= x.e) == (se <= s), (xe == x.e) == (se == s)))
             c.side.append((x.e == 0) == (s == 0))
             c.side.append(z3.Implies(x.e >= 1, z3.And(s >= 1, s <= x.e)))
